@@ -38,16 +38,18 @@ from calmjs.parse.ruletypes import (
 )
 from calmjs.parse.lexers.es5 import PATT_LINE_CONTINUATION
 from calmjs.parse.unicode_chars import (
+    LETTER,
     COMBINING_MARK,
     CONNECTOR_PUNCTUATION,
 )
 
 # any character that may be part of an identifier name (7.6), aside from
 # the dollar sign; \w alone lacks the combining marks and connector
-# punctuations.
+# punctuations, and the letters of the lexer which newer versions of the
+# Unicode database classify differently.
 _w = (
-    r'(?:[\w\u200c\u200d]|' + COMBINING_MARK + r'|' + CONNECTOR_PUNCTUATION +
-    r')'
+    r'(?:[\w\u200c\u200d]|' + LETTER + r'|' + COMBINING_MARK + r'|' +
+    CONNECTOR_PUNCTUATION + r')'
 )
 word_char = re.compile(_w)
 required_space = re.compile(
